@@ -287,6 +287,16 @@ def run(repo: Repo, rep: Report, tier: str) -> None:
             n_pair += 1
             rep.check(first == alone and second == 4, "one-result", "presentation.negotiate_as_acceptor", f"[proposal={p}, supported roles={s_}] proposed twice -> {first}, second context result {second}", f"the same abstract syntax proposed in two contexts (one acceptable, one without a common transfer syntax): the acceptable one must be answered exactly as when proposed alone ({alone}) and the other with 0x04 - otherwise what one context gets depends on its siblings (e.g. the role reply is dropped, and the requestor falls back to default roles while the acceptor keeps the negotiated ones)", mod=pres, node=fa)
     rep.floor("pair scenarios evaluated", n_pair, 45)
+    # the largest request PS3.8 allows - 128 contexts, many of them the same proposal: one answer per context, each its
+    # own object with its own id (results are keyed by id when the A-ASSOCIATE-AC is built)
+    try:
+        many = ne.acceptor_many(128)
+        ids = [m_[0] for m_ in many]
+        want_ids = [2 * k + 1 for k in range(128)]
+        okm = sorted(i_ for i_ in ids if isinstance(i_, int)) == want_ids and len({m_[2] for m_ in many}) == len(many) and all((r_ == 0) == (k % 3 != 2) for k, (_, r_, _) in enumerate(sorted(many, key=lambda m_: m_[0] if isinstance(m_[0], int) else 0)))
+        rep.check(okm, "one-result", "presentation.negotiate_as_acceptor", f"128 proposed contexts (repeated proposals) -> {len(many)} results, {len(set(ids))} distinct ids, {len({m_[2] for m_ in many})} distinct objects", "a request with the maximum number of presentation contexts, many repeating the same proposal, must be answered with one result per context id, each result its own object: results that share one object carry the last id only, the A-ASSOCIATE-AC then lacks result items for the earlier contexts (and repeats ids)", mod=pres, node=fa)
+    except Unsupported as exc:
+        rep.defer(f"presentation.negotiate_as_acceptor: 128-context scenario not evaluable: {exc}")
     # the other two outcomes of one proposed context: no common transfer syntax (0x04), abstract syntax not supported (0x03)
     for kw, want_res in ((dict(ts_match=False), 4), (dict(supported=False), 3)):
         for p in (None, (True, True)):
